@@ -299,6 +299,21 @@ func GenChange(t *rapid.T, o GenOpt) *ChangeDoc {
 	return c
 }
 
+// GenDiffRich is GenDiff whose old/new blocks may also carry bounds,
+// changesets, notes and users (Action.Old/New are full OSM values).
+func GenDiffRich(t *rapid.T, o GenOpt) *DiffDoc {
+	d := GenDiff(t, o)
+	for i := range d.Actions {
+		a := &d.Actions[i]
+		if a.Type == "create" || rapid.IntRange(0, 2).Draw(t, "rich") != 0 {
+			continue
+		}
+		a.Old = append(a.Old, GenItems(t, o, "nwrbcNu", 3)...)
+		a.New = append(a.New, GenItems(t, o, "nwrbcNu", 3)...)
+	}
+	return d
+}
+
 func GenDiff(t *rapid.T, o GenOpt) *DiffDoc {
 	d := &DiffDoc{}
 	n := rapid.IntRange(0, 5).Draw(t, "nactions")
